@@ -81,8 +81,60 @@ type c02Env struct {
 	applyGates map[string]*c02ApplyGate
 	staleFetches int
 	f8Reached, f9Reached, f10Reached, f11Reached bool
-	fallbackLoss map[string]int64 // replica -> cut offset of a HW-fallback truncation that removed committed offsets
+	fallbackLoss map[string]int64 // replica -> cut offset of a HW-fallback truncation that removed committed messages the replica held
+	fallbackHit  bool             // a failure of this scenario was found on such a replica at or beyond its cut
+	// families F12/F13 (c02_electrace_test.go, c02_boundary_test.go): named
+	// counters for the evidence, and whether the scenario reached the
+	// situation it was written for
+	counts  map[string]int64
+	covered bool
+	// a deposed leader's own append after it reconciled its log (see selfAppendedAfterTruncation)
+	lastLed    map[string]uint64     // server -> epoch of its latest becomeLeader (elected or resumed after a restart)
+	truncs     map[string][]c02Trunc // server -> its truncations, each with the epoch the server had led last
+	cepoch     map[int64]uint64      // offset -> leader epoch of the committed message
+	selfAppend string                // set once such an append was identified in this scenario
+	lastPart   map[string]*partition // server -> partition object last seen by the observer
 }
+
+type c02Trunc struct {
+	to       int64
+	ledEpoch uint64
+	// what the replica held from the truncation target on when the truncation
+	// was announced (read inside the hook, before Truncate runs); nil if it
+	// could not be read
+	tail map[int64]uint64
+}
+
+// selfAppendedAfterTruncation: replica srv holds record r although it
+// truncated its log at or below r's offset AFTER the last epoch it led, and r
+// carries that epoch: nobody but srv ever wrote messages of that epoch, the
+// truncation removed everything from its target on, and what a follower
+// appends afterwards comes from the new leader's log (which holds nothing of
+// that epoch at or beyond the truncation target, that is how the target was
+// computed).  So r was written by srv's own leader loop after srv had been
+// deposed and had reconciled its log.  To tell this from a truncation that did
+// not remove what it should have (a different defect with the same picture),
+// the record must not be one the replica already held at that offset when the
+// truncation was announced.  Caller holds e.mu.
+func (e *c02Env) selfAppendedAfterTruncation(srv string, r vfLogRec) bool {
+	for _, t := range e.truncs[srv] {
+		if t.ledEpoch != 0 && t.ledEpoch == r.Epoch && t.to <= r.Offset && t.tail != nil && t.tail[r.Offset] != c02Digest(r) {
+			return true
+		}
+	}
+	return false
+}
+
+func c02TruncTargets(ts []c02Trunc) []int64 {
+	var out []int64
+	for _, t := range ts {
+		out = append(out, t.to)
+	}
+	return out
+}
+
+const c02SelfAppendSuffix = ":deposed-leader-appended-after-its-truncation"
+
 
 func (e *c02Env) logf(format string, a ...interface{}) {
 	e.mu.Lock()
@@ -102,13 +154,28 @@ func (e *c02Env) witness() map[string]any {
 	return map[string]any{"family": e.family, "scenario_seed": e.seed, "steps": append([]string(nil), e.steps...), "trace_tail": append([]string(nil), tr...)}
 }
 
-func (e *c02Env) fail(fp, what string) {
+func (e *c02Env) fail(fp, what string) { e.failAt(fp, what, "", 0) }
+
+// failAt reports a violation found on replica (the leader that lacks or
+// changed something) at offset.  The loss counts as the known HW-fallback
+// hazard only if THAT replica cut committed messages it held at or below the
+// offset when it took the fallback; once one failure of the scenario has been
+// attributed like that, its consequences (other replicas reconciling with
+// that leader, consumers) carry the suffix too.  A loss on a replica that
+// never cut anything it should have kept is reported as what it is.
+func (e *c02Env) failAt(fp, what, replica string, offset int64) {
 	e.mu.Lock()
 	e.failed = true
 	quiet := e.quietOracle
-	if len(e.fallbackLoss) > 0 && !strings.HasSuffix(fp, ":after-hw-fallback-truncation") {
+	if cut, ok := e.fallbackLoss[replica]; ok && replica != "" && cut <= offset {
+		e.fallbackHit = true
+	}
+	if e.selfAppend != "" && !strings.HasSuffix(fp, c02SelfAppendSuffix) {
+		fp += c02SelfAppendSuffix
+		what += " [" + e.selfAppend + "]"
+	} else if e.fallbackHit && !strings.HasSuffix(fp, ":after-hw-fallback-truncation") {
 		fp += ":after-hw-fallback-truncation"
-		what += fmt.Sprintf(" [a replica of this scenario took the HW-truncation fallback and cut committed offsets: %v]", e.fallbackLoss)
+		what += fmt.Sprintf(" [a replica of this scenario took the HW-truncation fallback and cut committed messages it held: %v]", e.fallbackLoss)
 	}
 	e.mu.Unlock()
 	if quiet {
@@ -178,6 +245,12 @@ func c02NewEnv(rep *kit.Report, family string, seed uint64) (*c02Env, error) {
 		}
 		e.mu.Lock()
 		e.elected[fmt.Sprintf("%s/%d", a[0], a[3])] = true
+		if ep, ok := a[3].(uint64); ok {
+			if e.lastLed == nil {
+				e.lastLed = map[string]uint64{}
+			}
+			e.lastLed[fmt.Sprint(a[0])] = ep
+		}
 		e.mu.Unlock()
 		e.logf("becomeLeader server=%v epoch=%v newest=%v recovered=%v", a[0], a[3], a[4], a[5])
 		return nil
@@ -228,17 +301,50 @@ func c02NewEnv(rep *kit.Report, family string, seed uint64) (*c02Env, error) {
 			return nil
 		}
 		e.logf("truncate server=%v kind=%v lastEpoch=%v to=%v", a[0], a[3], a[4], a[5])
+		if to, ok := a[5].(int64); ok {
+			srv := fmt.Sprint(a[0])
+			// This runs inside SetLeader (metadata and partition mutexes are
+			// held): no metadata lookup here, the partition object is the one
+			// the observer saw last (a closed log of an earlier incarnation
+			// just fails to read).
+			var tail map[int64]uint64
+			e.mu.Lock()
+			p := e.lastPart[srv]
+			e.mu.Unlock()
+			if p != nil {
+				if recs, err := vfReadLog(p.log, to, true); err == nil {
+					tail = map[int64]uint64{}
+					for _, r := range recs {
+						tail[r.Offset] = c02Digest(r)
+					}
+				}
+			}
+			e.mu.Lock()
+			if e.truncs == nil {
+				e.truncs = map[string][]c02Trunc{}
+			}
+			e.truncs[srv] = append(e.truncs[srv], c02Trunc{to: to, ledEpoch: e.lastLed[srv], tail: tail})
+			e.mu.Unlock()
+		}
 		if kind, _ := a[3].(string); kind == "hw" {
 			// The documented lossy fallback (leader could not be asked): the
-			// replica cuts its log at its OWN high watermark.  If offsets at or
-			// beyond the cut are already known to be committed, this replica has
+			// replica cuts its log at its OWN high watermark.  If it HOLDS, at
+			// or beyond the cut, messages already known to be committed, it has
 			// just dropped committed messages — whatever loss shows up later in
 			// this scenario is that known hazard (known_findings.json), and is
-			// fingerprinted as such.
+			// fingerprinted as such.  A replica whose tail beyond the cut is
+			// something else than the committed messages (it never had them:
+			// somebody committed without it) loses nothing through the cut, so
+			// a loss seen afterwards is not this hazard.  If the tail could not
+			// be read, the cut is assumed to have hit (as before).
 			to, _ := a[5].(int64)
 			e.mu.Lock()
-			for o := range e.committed {
-				if o >= to {
+			var tail map[int64]uint64
+			if ts := e.truncs[fmt.Sprint(a[0])]; len(ts) > 0 && ts[len(ts)-1].to == to {
+				tail = ts[len(ts)-1].tail
+			}
+			for o, d := range e.committed {
+				if o >= to && (tail == nil || tail[o] == d) {
 					if e.fallbackLoss == nil {
 						e.fallbackLoss = map[string]int64{}
 					}
@@ -558,6 +664,10 @@ func (e *c02Env) observeNode(n *vfNode, label string) {
 	}
 	e.mu.Lock()
 	defer e.mu.Unlock()
+	if e.lastPart == nil {
+		e.lastPart = map[string]*partition{}
+	}
+	e.lastPart[n.ID] = p
 	for _, r := range recs {
 		if r.Offset > hw {
 			break
@@ -569,12 +679,16 @@ func (e *c02Env) observeNode(n *vfNode, label string) {
 				what := fmt.Sprintf("replica %s (%s) holds %q (epoch %d) at offset %d which is <= its HW %d, but %s showed %q committed at that offset",
 					n.ID, label, r.Value, r.Epoch, r.Offset, hw, e.commitBy[r.Offset], e.tags[r.Offset])
 				quiet := e.quietOracle
+				fp := "C02:divergence-below-hw"
+				if e.selfAppendedAfterTruncation(n.ID, r) {
+					e.selfAppend = fmt.Sprintf("replica %s wrote offset %d itself, under epoch %d which it had led, after it had been deposed and had truncated its log (targets %v)", n.ID, r.Offset, r.Epoch, c02TruncTargets(e.truncs[n.ID]))
+					fp += c02SelfAppendSuffix
+					what += " [" + e.selfAppend + "; the committed message carries epoch " + fmt.Sprint(e.cepoch[r.Offset]) + "]"
+				} else if e.unknownEpoch {
+					fp += ":follower-epoch-unknown-to-leader"
+				}
 				e.mu.Unlock()
 				if !quiet {
-					fp := "C02:divergence-below-hw"
-					if e.unknownEpoch {
-						fp += ":follower-epoch-unknown-to-leader"
-					}
 					e.rep.Violation(fp, what, e.witness())
 				}
 				e.mu.Lock()
@@ -582,6 +696,10 @@ func (e *c02Env) observeNode(n *vfNode, label string) {
 			continue
 		}
 		e.committed[r.Offset] = d
+		if e.cepoch == nil {
+			e.cepoch = map[int64]uint64{}
+		}
+		e.cepoch[r.Offset] = r.Epoch
 		e.commitBy[r.Offset] = n.ID + "@" + label
 		e.tags[r.Offset] = string(r.Value)
 	}
@@ -617,16 +735,22 @@ func (e *c02Env) checkLeaderComplete(label string) {
 		offs = append(offs, o)
 	}
 	sort.Slice(offs, func(i, j int) bool { return offs[i] < offs[j] })
-	type bad struct{ fp, what string }
+	type bad struct {
+		fp, what string
+		off      int64
+	}
 	var bads []bad
 	for _, o := range offs {
 		r, ok := have[o]
 		if !ok {
-			bads = append(bads, bad{"C02:committed-lost", fmt.Sprintf("leader %s (%s) does not hold committed offset %d (%q, first shown by %s)", l.ID, label, o, e.tags[o], e.commitBy[o])})
+			bads = append(bads, bad{"C02:committed-lost", fmt.Sprintf("leader %s (%s) does not hold committed offset %d (%q, first shown by %s)", l.ID, label, o, e.tags[o], e.commitBy[o]), o})
 			break
 		}
 		if c02Digest(r) != e.committed[o] {
-			bads = append(bads, bad{"C02:committed-changed", fmt.Sprintf("leader %s (%s) serves %q at committed offset %d, committed content was %q", l.ID, label, r.Value, o, e.tags[o])})
+			if e.selfAppend == "" && e.selfAppendedAfterTruncation(l.ID, r) {
+				e.selfAppend = fmt.Sprintf("replica %s wrote offset %d itself, under epoch %d which it had led, after it had been deposed and had truncated its log (targets %v)", l.ID, r.Offset, r.Epoch, c02TruncTargets(e.truncs[l.ID]))
+			}
+			bads = append(bads, bad{"C02:committed-changed", fmt.Sprintf("leader %s (%s) serves %q at committed offset %d, committed content was %q", l.ID, label, r.Value, o, e.tags[o]), o})
 			break
 		}
 	}
@@ -637,13 +761,13 @@ func (e *c02Env) checkLeaderComplete(label string) {
 			if ok {
 				got = string(r.Value)
 			}
-			bads = append(bads, bad{"C02:acked-lost", fmt.Sprintf("message %q was ALL-acked at offset %d but leader %s (%s) has %q there", tag, o, l.ID, label, got)})
+			bads = append(bads, bad{"C02:acked-lost", fmt.Sprintf("message %q was ALL-acked at offset %d but leader %s (%s) has %q there", tag, o, l.ID, label, got), o})
 			break
 		}
 	}
 	e.mu.Unlock()
 	for _, b := range bads {
-		e.fail(b.fp, b.what)
+		e.failAt(b.fp, b.what, l.ID, b.off)
 	}
 }
 
@@ -1112,7 +1236,7 @@ func TestVerifC02(t *testing.T) {
 	}
 	rep := kit.NewReport("C02", family)
 	defer rep.Write()
-	rep.SetRule("fault-sequence scenarios on real 3-server clusters (RF=3): F1 lagging follower + ISR shrink + leader death with uncommitted tail, F2 double failover with a replication-learned epoch boundary and the first leader rejoining with its tail, F3 follower restart then leader death, F4 shrink/commit/expand then leader death, F5 seeded random walks, F6 ISR re-expansion, F7 former leader re-elected, F8 a deposed leader's answer handled after the follower switched leaders (response held at the follower.afterFetch gate), F9 a follower that applies the leader change late keeps fetching with the old epoch from the new leader (partition.setLeader gate), F11 leader death while both followers have received but not stored a batch (answers held at follower.afterFetch, dropped after the leader change), F10 pause + resume of the stream after an ISR shrink and commits, leader death right after the resume; every replica is observed after each step and by a 40 ms sampler (HW first, then log content): offsets <= HW go into one committed table and must agree across replicas and time, every leader must hold all committed offsets and all ALL-acked tags; non-trivial = scenario completed all its steps (no watchdog) and saw >=1 leader change; distinct = family+seed")
+	rep.SetRule("fault-sequence scenarios on real 3-server clusters (RF=3): F1 lagging follower + ISR shrink + leader death with uncommitted tail, F2 double failover with a replication-learned epoch boundary and the first leader rejoining with its tail, F3 follower restart then leader death, F4 shrink/commit/expand then leader death, F5 seeded random walks, F6 ISR re-expansion, F7 former leader re-elected, F8 a deposed leader's answer handled after the follower switched leaders (response held at the follower.afterFetch gate), F9 a follower that applies the leader change late keeps fetching with the old epoch from the new leader (partition.setLeader gate), F11 leader death while both followers have received but not stored a batch (answers held at follower.afterFetch, dropped after the leader change), F10 pause + resume of the stream after an ISR shrink and commits, leader death right after the resume, F12 a leader election at the controller in flight while the leader's ISR shrink of the selected (lagging, held) follower is serialised before / between selection and proposal / after it, with ALL messages committed and acknowledged in the gap (c02_electrace_test.go), F13 double failover with exactly 1 (neighbours 0, 2) message in the middle epoch, learned by replication by the third leader, which is silent when the first leader returns with its tail (c02_boundary_test.go), F14 a publisher that keeps sending (NONE) while a deposed leader — live and applying the change late, or restarted with stale metadata and resuming its old epoch — applies the leader change, reconciles and starts following (c02_zombie_test.go); every replica is observed after each step and by a 40 ms sampler (HW first, then log content): offsets <= HW go into one committed table and must agree across replicas and time, every leader must hold all committed offsets and all ALL-acked tags; non-trivial = scenario completed all its steps (no watchdog) and saw >=1 leader change (F12/F13/F14: and reached the situation the family is about, see the f12_/f13_/f14_ counters); distinct = family+seed")
 	rep.Assume("network partitions between NATS clients are not simulated: a leader is isolated with the test-only pauseReplication switch and/or Server.Stop(); Stop() checkpoints the HW")
 	fn := c02Families[family]
 	if fn == nil {
@@ -1130,6 +1254,15 @@ func TestVerifC02(t *testing.T) {
 	}
 	if family == "F10" {
 		n = kit.Scale(4, 12) // which in-sync replica the controller picks is a coin flip
+	}
+	if family == "F12" {
+		n = kit.Scale(3, 9) // one scenario per order of the two proposals and round
+	}
+	if family == "F13" {
+		n = kit.Scale(2, 9) // scenario 0 is the boundary case itself, the others its neighbours
+	}
+	if family == "F14" {
+		n = kit.Scale(2, 8) // the two ways of being a deposed leader that does not know yet
 	}
 	root := kit.NewRNG(kit.Mix(kit.Seed(), uint64(family[1])+uint64(len(family))*1000))
 	for i := 0; i < n && rep.NumViolations() < 3; i++ {
@@ -1177,9 +1310,16 @@ func TestVerifC02(t *testing.T) {
 		if e.f9Reached {
 			rep.Count("f9_stale_epoch_fetches_sent_while_new_leader_led", int64(e.staleFetches))
 		}
+		for k, v := range e.counts {
+			rep.Count(k, v)
+		}
+		covered := e.covered
 		steps := append([]string(nil), e.steps...)
 		e.mu.Unlock()
-		if complete && (changes >= 2 || family == "F6") && (family != "F8" || e.f8Reached) && (family != "F9" || e.f9Reached) && (family != "F11" || e.f11Reached) {
+		if (family == "F12" || family == "F13" || family == "F14") && !covered {
+			complete = false // ran, but did not reach the situation the family is about
+		}
+		if complete && (changes >= 2 || family == "F6" || family == "F12") && (family != "F8" || e.f8Reached) && (family != "F9" || e.f9Reached) && (family != "F11" || e.f11Reached) {
 			rep.Nontrivial(fmt.Sprintf("%s/%d", family, seed))
 		}
 		rep.Sample(map[string]any{"family": family, "seed": seed, "steps": steps})
